@@ -28,6 +28,16 @@ type LGopath struct {
 	Remote string  // remote root, e.g. "/home/u1/go"
 	Src    []LFile // below src/
 	Mod    []LFile // below pkg/mod/, e.g. "github.com/a/b@v1.2.3/c/d.go"
+	// ModRemote: the remote machine kept its module cache outside its GOPATH (GOMODCACHE);
+	// locally both trees lie under this one GOPATH. "" = below Remote.
+	ModRemote string `json:",omitempty"`
+}
+
+func (g *LGopath) modRemote() string {
+	if g.ModRemote != "" {
+		return g.ModRemote
+	}
+	return g.Remote
 }
 
 // LModule is a local module (or, with Loose, a directory of "go run" files without go.mod).
@@ -109,6 +119,7 @@ func (l *Layout) at(base string) *Layout {
 	c.Gopaths = append([]LGopath(nil), l.Gopaths...)
 	for i := range c.Gopaths {
 		c.Gopaths[i].Remote = sub(c.Gopaths[i].Remote)
+		c.Gopaths[i].ModRemote = sub(c.Gopaths[i].ModRemote)
 	}
 	c.Extra = nil
 	for _, e := range l.Extra {
@@ -130,7 +141,7 @@ func (l *Layout) truths(base string) []fileTruth {
 			out = append(out, fileTruth{Remote: g.Remote + "/src/" + f.Rel, Local: lp + "/src/" + f.Rel, Rel: f.Rel, Import: dirOf(f.Rel), Loc: stack.GOPATH, Present: f.Present, Known: true, ImportFromFunc: dirOf(f.Rel) == ""})
 		}
 		for _, f := range g.Mod {
-			out = append(out, fileTruth{Remote: g.Remote + "/pkg/mod/" + f.Rel, Local: lp + "/pkg/mod/" + f.Rel, Rel: f.Rel, Import: dirOf(f.Rel), Loc: stack.GoPkg, Present: f.Present, Known: true, ImportFromFunc: dirOf(f.Rel) == ""})
+			out = append(out, fileTruth{Remote: g.modRemote() + "/pkg/mod/" + f.Rel, Local: lp + "/pkg/mod/" + f.Rel, Rel: f.Rel, Import: dirOf(f.Rel), Loc: stack.GoPkg, Present: f.Present, Known: true, ImportFromFunc: dirOf(f.Rel) == ""})
 		}
 	}
 	for _, m := range l.Modules {
@@ -249,6 +260,9 @@ func (l *Layout) ambiguous(base string, refs []fileTruth) bool {
 	}
 	for _, g := range l.Gopaths {
 		rr = append(rr, g.Remote)
+		if g.ModRemote != "" {
+			rr = append(rr, g.ModRemote)
+		}
 	}
 	for i := range rr {
 		for j := range rr {
@@ -329,6 +343,9 @@ func genLayout(t *rapid.T, nested bool) Layout {
 				seen[f] = true
 				g.Mod = append(g.Mod, LFile{Rel: f, Present: present()})
 			}
+		}
+		if len(g.Src) > 0 && len(g.Mod) > 0 && oneIn(t, 3, "modCacheElsewhere") {
+			g.ModRemote = genRemoteRoot(t, fmt.Sprintf("modcache%d", i))
 		}
 		l.Gopaths = append(l.Gopaths, g)
 	}
@@ -431,6 +448,7 @@ func genLayout(t *rapid.T, nested bool) Layout {
 	}
 	if l.GorootRemote != "" && len(l.Gopaths) > 0 && len(l.Goroot) > 0 && oneIn(t, 8, "toolchainInModCache") {
 		l.Toolchain = true
+		l.Gopaths[0].ModRemote = ""
 		l.GorootRemote = l.Gopaths[0].Remote + toolchainDir
 	}
 	l.TestMain = oneIn(t, 4, "testmain")
